@@ -31,10 +31,9 @@ FORMAT_TYPES = ('NOT', 'AND', 'OR', 'NOR', 'NAND', 'XOR', 'NXOR', 'IFF', 'GEQ', 
 
 
 def format_arity(t):
+    # the format (decoder _get_arity and the repository's own DB tests) stores constants as two-operand gates
     if t in ('NOT', 'IFF'):
         return 1
-    if t in S.CONST:
-        return 0
     return 2
 
 
